@@ -202,6 +202,10 @@ fn classes(ptrs: &[usize]) -> Vec<i64> {
 fn rc_fields(spec: &[FieldSpec]) -> (Vec<RcField>, Vec<Rc<Payload>>) {
     let nall = spec.iter().map(|f| f.n).max().unwrap_or(0);
     let allocs: Vec<Rc<Payload>> = (1..=nall).map(|n| Rc::new(Payload { id: n, tags: vec![format!("t{n}")] })).collect();
+    (rc_fields_over(spec, &allocs), allocs)
+}
+/// the field list over given allocations (so that two lists can share them)
+fn rc_fields_over(spec: &[FieldSpec], allocs: &[Rc<Payload>]) -> Vec<RcField> {
     let fields = spec
         .iter()
         .map(|f| match f.k.as_str() {
@@ -215,7 +219,7 @@ fn rc_fields(spec: &[FieldSpec]) -> (Vec<RcField>, Vec<Rc<Payload>>) {
             }
         })
         .collect();
-    (fields, allocs)
+    fields
 }
 fn rc_ptrs(fs: &[RcField]) -> Vec<usize> {
     fs.iter()
@@ -264,6 +268,18 @@ fn one(spec: &[FieldSpec], flavor: &str, container: &str) -> (String, Vec<i64>, 
                     let text = match serde_saphyr::to_string(&fields) { Ok(t) => t, Err(e) => return (String::new(), vec![-1], format!("ser: {e}")) };
                     match serde_saphyr::from_str::<Vec<RcField>>(&text) {
                         Ok(back) => (text, classes(&rc_ptrs(&back)), String::new()),
+                        Err(e) => (text, vec![-1], classify(&e)),
+                    }
+                }
+                // two documents written by one to_string_multiple call, both over the SAME allocations: each document stands
+                // alone (anchors do not cross documents), so the second must define its shared nodes again; observed: the
+                // sharing classes of the second document
+                "stream" => {
+                    let again = rc_fields_over(&spec2, &_keep);
+                    let text = match serde_saphyr::to_string_multiple(&[fields, again]) { Ok(t) => t, Err(e) => return (String::new(), vec![-1], format!("ser: {e}")) };
+                    match serde_saphyr::from_multiple::<Vec<RcField>>(&text) {
+                        Ok(docs) if docs.len() == 2 => (text, classes(&rc_ptrs(&docs[1])), String::new()),
+                        Ok(docs) => (text, vec![-1], format!("{} documents", docs.len())),
                         Err(e) => (text, vec![-1], classify(&e)),
                     }
                 }
@@ -535,7 +551,7 @@ pub fn run(args: &Args) -> i32 {
             stats.nontrivial += 1;
         }
         let fields_json = serde_json::json!(spec.iter().map(|f| serde_json::json!({"k": f.k, "n": f.n})).collect::<Vec<_>>());
-        for (flavor, container) in [("rc", "seq"), ("rc", "map"), ("rc", "struct"), ("arc", "seq")] {
+        for (flavor, container) in [("rc", "seq"), ("rc", "map"), ("rc", "struct"), ("arc", "seq"), ("rc", "stream")] {
             if container == "struct" && spec.len() > 5 {
                 continue;
             }
